@@ -26,13 +26,15 @@ struct Cfg {
     paced: bool,
     /// the second object is empty (zero bytes)
     with_empty: bool,
+    /// the objects are supplied as streams (in-memory cursor / file on disk) instead of buffers
+    stream: bool,
 }
 
 impl Cfg {
     fn name(&self) -> String {
         format!("{}|ib{}|ic{}|{}|n{}|{}|{}|mf{}|il{}|ff{}|{}", self.fec.name(), self.inband_fti, self.inband_cenc, self.cenc.name(), self.nobj,
             if self.interval { "interval" } else { "delay" }, if self.full_fdt { "full" } else { "obt" }, self.small_fdt_symbols, self.interleave, self.fdt_same_fec,
-            if self.paced { if self.with_empty { "paced+empty" } else { "paced" } } else if self.with_empty { "drain+empty" } else { "drain" })
+            format!("{}{}", if self.paced { if self.with_empty { "paced+empty" } else { "paced" } } else if self.with_empty { "drain+empty" } else { "drain" }, if self.stream { "+stream" } else { "" }))
     }
 }
 
@@ -44,6 +46,8 @@ struct Built {
     /// full FDT emissions: (first index, last index)
     fdt_emissions: Vec<(usize, usize)>,
     cycle_len: usize,
+    /// finished transfers (Start .. Stop) that do not carry every source symbol: (object, start, stop, symbols seen, symbols expected)
+    incomplete: Vec<(usize, usize, usize, usize, u128)>,
 }
 
 fn build(cfg: &Cfg, seed: u64) -> Result<Built, String> {
@@ -79,6 +83,9 @@ fn build(cfg: &Cfg, seed: u64) -> Result<Built, String> {
         o.oti = Some(obj_oti.clone());
         o.cenc = cfg.cenc;
         o.inband_cenc = cfg.inband_cenc;
+        if cfg.stream {
+            o.source = if k % 2 == 0 { SourceSpec::Cursor } else { SourceSpec::File };
+        }
         o.carousel = Some(if cfg.interval { CarouselSpec::IntervalMs(200 + 50 * k as u64) } else { CarouselSpec::DelayMs(100 + 30 * k as u64) });
         script.push((When::Start, Op::Add(k)));
         objs.push(o);
@@ -94,6 +101,7 @@ fn build(cfg: &Cfg, seed: u64) -> Result<Built, String> {
     }
     // complete transfers per object
     let mut transfers = vec![];
+    let mut incomplete = vec![];
     for (i, _) in objs.iter().enumerate() {
         let toi = run.tois[i].unwrap();
         let oti = run.oti_of(i);
@@ -109,6 +117,8 @@ fn build(cfg: &Cfg, seed: u64) -> Result<Built, String> {
                 }
                 if have.len() as u128 == part.t {
                     list.push((s, e));
+                } else {
+                    incomplete.push((i, s, e, have.len(), part.t));
                 }
             }
         }
@@ -142,7 +152,7 @@ fn build(cfg: &Cfg, seed: u64) -> Result<Built, String> {
         }
     }
     let cycle_len = transfers.iter().filter(|t| t.len() >= 2).map(|t| t[1].0 - t[0].0).max().unwrap_or(0).max(fdt_emissions.windows(2).map(|w| w[1].0 - w[0].0).max().unwrap_or(0));
-    Ok(Built { cfg: cfg.clone(), run, transfers, fdt_emissions, cycle_len })
+    Ok(Built { cfg: cfg.clone(), run, transfers, fdt_emissions, cycle_len, incomplete })
 }
 
 /// index (exclusive) by which, counted from j, every object had two further full
@@ -204,10 +214,19 @@ fn main() {
                                 fdt_same_fec: v % 4 == 3 && fec != Fec::Raptor,
                                 paced: false,
                                 with_empty: false,
+                                stream: false,
                             });
                             let mut paced = cfgs.last().unwrap().clone();
                             paced.paced = true;
                             cfgs.push(paced.clone());
+                            if (v % 2 == 1 || v >= 4) && cenc == CencSpec::Null {
+                                // (flute sends a stream as it is: a content encoding would have to be applied by the caller)
+                                // same configuration, objects supplied as streams (rewound for every carousel round)
+                                let mut st = paced.clone();
+                                st.stream = true;
+                                st.paced = v % 4 == 1;
+                                cfgs.push(st);
+                            }
                             if paced.nobj >= 2 && v % 2 == 0 {
                                 // same configuration with an empty second object
                                 let mut e = paced.clone();
@@ -224,8 +243,29 @@ fn main() {
         let _ = Tier::Quick;
         let mut built: Vec<Built> = vec![];
         let mut not_built = 0;
+        // sender-side verdicts per configuration (reported through the generator `configurations`)
+        let mut reports: Vec<(String, Vec<Violation>)> = vec![];
         for c in &cfgs {
-            match util::guarded(|| build(c, ctx.seed)) {
+            let mut rep: Vec<Violation> = vec![];
+            let r = util::guarded(|| build(c, ctx.seed));
+            if let Ok(Ok(b)) = &r {
+                // a carousel round that ends (StopTransfer) without having carried every source symbol can never serve a
+                // late joiner, however long it listens
+                if let Some((k, s0, e0, have, want)) = b.incomplete.first() {
+                    rep.push(Violation::new("carousel_round_incomplete", format!(
+                        "{}: {} finished transfer(s) of carouselled objects do not carry every source symbol, e.g. object {} packets [{}, {}): {} of {} source symbols ({} complete transfers of that object in the stream)",
+                        c.name(), b.incomplete.len(), k, s0, e0, have, want, b.transfers[*k].len()))
+                        .with("fec", c.fec.name()).with("stream_source", c.stream).with("empty_round", *have == 0)
+                        .witness(json!({"config": c.name(), "incomplete": b.incomplete.iter().take(8).collect::<Vec<_>>()})));
+                }
+            }
+            if let Err(p) = &r {
+                rep.push(Violation::new(if p.is_step_budget() { "hang" } else { "panic" }, format!("{}: the sender {} while the carousel ran: {} @ {}", c.name(), if p.is_step_budget() { "hung" } else { "panicked" }, p.msg, p.short_loc()))
+                    .with("site", if p.is_step_budget() { p.step_site() } else { p.file() }).with("fec", c.fec.name()).with("stream_source", c.stream)
+                    .witness(json!({"config": c.name()})));
+            }
+            reports.push((c.name(), rep));
+            match r {
                 Ok(Ok(b)) => {
                     if b.cycle_len > 0 && b.transfers.iter().all(|t| t.len() >= 4) {
                         built.push(b);
@@ -260,6 +300,18 @@ fn main() {
         let n_plan = plan.len();
         let bb = built.clone();
         let mut gens = vec![];
+        let reports = Arc::new(std::sync::Mutex::new(reports));
+        let n_cfg = cfgs.len();
+        let rp = reports.clone();
+        gens.push(Gen::new("configurations", n_cfg, move |_ctx, i| {
+            let mut cr = CaseResult::default();
+            let mut g = rp.lock().unwrap();
+            let (name, v) = &mut g[i];
+            cr.violations = std::mem::take(v);
+            cr.shape = Some(util::fnv(name));
+            cr.count("configurations_run_on_the_sender", 1);
+            cr
+        }));
         gens.push(Gen::new("every_join_offset", n_plan, move |_ctx, i| {
             let (bi, c) = plan[i];
             let b = &bb[bi];
